@@ -3,6 +3,7 @@
 -/
 import TwigModel.Render
 import TwigProofs.Lemmas.Scan
+import TwigProofs.Lemmas.RenderInherit
 namespace Twig
 
 /-! ## `renderSrc` -/
@@ -722,6 +723,1011 @@ theorem outOf_undash (vars : List (Bytes × Val)) (last : Bytes) : ∀ (ps : Lis
     simp only [outOf, undashS, interleaveOut, plain_value, outOf_undash vars last ps]
     rfl
 
+
+
+/-! ## verbatim -/
+
+/-- node lists made of text and verbatim nodes only, as pieces -/
+def tvPieces : List Node → Option (List Piece)
+  | [] => some []
+  | .text s :: r => (tvPieces r).map (Piece.lit s :: ·)
+  | .verbatim s :: r => (tvPieces r).map (Piece.verb s :: ·)
+  | _ => none
+
+def onlyTV (nodes : List Node) : Bool := (tvPieces nodes).isSome
+
+/-- the bytes such a node list holds -/
+def tvBytes : List Node → Bytes
+  | [] => []
+  | .text s :: r => s ++ tvBytes r
+  | .verbatim s :: r => s ++ tvBytes r
+  | _ :: r => tvBytes r
+
+theorem tvPieces_spec : ∀ (nodes : List Node) (ps : List Piece), tvPieces nodes = some ps →
+    nodes = ps.map Piece.node ∧ (∀ vars, PiecesPlain vars ps = true) ∧ (∀ vars, outPieces vars ps = .ok (tvBytes nodes))
+  | [], ps, h => by
+    simp only [tvPieces, Option.some.injEq] at h; subst h
+    exact ⟨rfl, fun _ => rfl, fun _ => rfl⟩
+  | .text s :: r, ps, h => by
+    simp only [tvPieces, Option.map_eq_some_iff] at h
+    obtain ⟨ps', h', rfl⟩ := h
+    obtain ⟨h1, h2, h3⟩ := tvPieces_spec r ps' h'
+    refine ⟨by rw [h1]; simp [Piece.node], fun vars => ?_, fun vars => ?_⟩
+    · simpa [PiecesPlain, Piece.plainIn] using h2 vars
+    · simp [outPieces, Piece.out, h3 vars, tvBytes]
+  | .verbatim s :: r, ps, h => by
+    simp only [tvPieces, Option.map_eq_some_iff] at h
+    obtain ⟨ps', h', rfl⟩ := h
+    obtain ⟨h1, h2, h3⟩ := tvPieces_spec r ps' h'
+    refine ⟨by rw [h1]; simp [Piece.node], fun vars => ?_, fun vars => ?_⟩
+    · simpa [PiecesPlain, Piece.plainIn] using h2 vars
+    · simp [outPieces, Piece.out, h3 vars, tvBytes]
+  | .print _ :: _, _, h | .ifN _ _ _ :: _, _, h | .forN _ _ _ _ _ :: _, _, h | .setN _ _ :: _, _, h
+  | .doN _ :: _, _, h | .block _ _ :: _, _, h | .extends _ :: _, _, h | .include _ _ _ _ _ _ :: _, _, h
+  | .macro _ _ _ _ _ :: _, _, h | .importN _ _ :: _, _, h | .fromN _ _ :: _, _, h | .apply _ _ :: _, _, h
+  | .spaceless _ :: _, _, h => by simp [tvPieces] at h
+
+theorem renderNodesTop_onlyTV (nodes : List Node) (h : onlyTV nodes = true) (vars : List (Bytes × Val)) :
+    renderNodesTop nodes vars = .ok (tvBytes nodes) := by
+  unfold onlyTV at h
+  obtain ⟨ps, hps⟩ := Option.isSome_iff_exists.mp h
+  obtain ⟨h1, h2, h3⟩ := tvPieces_spec nodes ps hps
+  rw [h1, renderNodesTop_pieces ps vars (h2 vars), h3 vars, ← h1]
+
+
+
+def verbOpen : Tag := ⟨.block, false, b " verbatim ", false⟩
+def verbClose : Tag := ⟨.block, false, b " endverbatim ", false⟩
+
+theorem verbOpen_tokens : verbOpen.tokens = [tk BLOCK_START, tk NAME (b "verbatim"), tk BLOCK_END] := by decide +kernel
+theorem verbClose_tokens : verbClose.tokens = [tk BLOCK_START, tk NAME (b "endverbatim"), tk BLOCK_END] := by decide +kernel
+theorem verbOpen_text : verbOpen.text = b "{% verbatim %}" := by decide +kernel
+theorem verbClose_text : verbClose.text = b "{% endverbatim %}" := by decide +kernel
+theorem verb_wf : WfTag verbOpen ∧ WfTag verbClose := by decide +kernel
+
+theorem parseTag_verbatim (f : Nat) (ts : List Token) :
+    parseTag (f+1) (b "verbatim") ts = (do
+      let r1 ← expectK BLOCK_END "expected block end after verbatim tag" ts
+      let (s, r2) ← verbBody (r1.length + 1) r1
+      pure (.verbatim s, r2)) := by
+  unfold parseTag
+  simp only [show (b "verbatim" == b "if") = false from by decide +kernel,
+    show (b "verbatim" == b "for") = false from by decide +kernel,
+    show (b "verbatim" == b "set") = false from by decide +kernel,
+    show (b "verbatim" == b "do") = false from by decide +kernel,
+    show (b "verbatim" == b "block") = false from by decide +kernel,
+    show (b "verbatim" == b "extends") = false from by decide +kernel,
+    show (b "verbatim" == b "include") = false from by decide +kernel,
+    show (b "verbatim" == b "macro") = false from by decide +kernel,
+    show (b "verbatim" == b "import") = false from by decide +kernel,
+    show (b "verbatim" == b "from") = false from by decide +kernel,
+    show (b "verbatim" == b "apply") = false from by decide +kernel,
+    show (b "verbatim" == b "spaceless") = false from by decide +kernel,
+    show (b "verbatim" == b "verbatim") = true from by decide +kernel]
+  simp
+
+/-- the body of `{% verbatim %}` when it is one literal chunk (possibly empty) -/
+theorem verbBody_lit (f : Nat) (body : Bytes) (rest : List Token) :
+    verbBody (f+2) (textTok body ++ tk BLOCK_START :: tk NAME (b "endverbatim") :: tk BLOCK_END :: rest) =
+      .ok (body, rest) := by
+  have hend : isName ⟨NAME, b "endverbatim"⟩ "endverbatim" = true := by simp [isName]
+  have h0 : ∀ g, verbBody (g+1) (tk BLOCK_START :: tk NAME (b "endverbatim") :: tk BLOCK_END :: rest) = .ok ([], rest) := by
+    intro g
+    simp [verbBody, tk, hend, expectK]
+  by_cases hb : body = []
+  · subst hb; rw [textTok_nil, List.nil_append]; exact h0 _
+  · rw [textTok_ne hb, List.singleton_append]
+    rw [verbBody]
+    simp [tk, TEXT, BLOCK_START]
+    have := h0 f
+    simp only [tk] at this
+    rw [this]
+    simp
+
+
+
+theorem parseOuter_verbatim (f : Nat) (body : Bytes) (rest : List Token) :
+    parseOuter (f+2) (tk BLOCK_START :: tk NAME (b "verbatim") :: tk BLOCK_END ::
+        (textTok body ++ tk BLOCK_START :: tk NAME (b "endverbatim") :: tk BLOCK_END :: rest)) =
+      (parseOuter (f+1) rest >>= fun (x : List Node × List Token) => pure (.verbatim body :: x.1, x.2)) := by
+  have hc : endTagNames.contains (b "verbatim") = false := by decide +kernel
+  have hlen : ∃ g, (textTok body ++ tk BLOCK_START :: tk NAME (b "endverbatim") :: tk BLOCK_END :: rest).length + 1 = g + 2 :=
+    ⟨(textTok body).length + rest.length + 2, by simp; omega⟩
+  obtain ⟨g, hg⟩ := hlen
+  rw [parseOuter]
+  simp only [tk, BLOCK_START, EOF, TEXT, VAR_START, NAME]
+  simp only [show ((3 : Nat) == 12) = false from rfl, show ((3 : Nat) == 0) = false from rfl,
+    show ((3 : Nat) == 1) = false from rfl, show ((3 : Nat) == 3) = true from rfl,
+    show ((7 : Nat) != 7) = false from rfl, Bool.false_eq_true, if_false, if_true, hc]
+  rw [parseTag_verbatim]
+  simp only [expectK, BLOCK_END, show ((4 : Nat) == 4) = true from rfl, if_true, ok_bind]
+  have := verbBody_lit g body rest
+  simp only [tk, BLOCK_START, NAME, BLOCK_END] at this hg
+  rw [hg, this]
+  rfl
+
+
+
+theorem normalise_inert (X : List Token) (hX : ∀ t ∈ X, ExprKind t.kind) : normalise X = X := by
+  induction X with
+  | nil => rfl
+  | cons t X ih =>
+    have := normKind_expr (hX t (by simp))
+    simp only [normalise, List.map_cons] at ih ⊢
+    rw [ih (fun u hu => hX u (by simp [hu])), this]
+
+theorem normalise_textTok (l : Bytes) : normalise (textTok l) = textTok l := by
+  by_cases h : l = []
+  · subst h; rfl
+  · rw [textTok_ne h]; rfl
+
+theorem normalise_content (t : Tag) : normalise (contentTokens t.kind t.body) = contentTokens t.kind t.body := by
+  by_cases hk : t.kind = .comment
+  · rw [hk]; simp only [contentTokens]; split <;> rfl
+  · exact normalise_inert _ (contentTokens_kinds hk t.body)
+
+/-- on a template without dashes `ApplyWhitespaceControl` and the kind normalisation change nothing -/
+theorem plain_stream (last : Bytes) : ∀ (ps : List (Bytes × Tag)),
+    (∀ lt ∈ ps, lt.2.otrim = false ∧ lt.2.ctrim = false) →
+    normalise (applyWsAux false (expected ps last)) = expected ps last
+  | [], _ => by
+    simp only [expected]
+    by_cases h : last = []
+    · subst h; rfl
+    · rw [textTok_ne h, List.singleton_append, applyWsAux_text _ _ _ rfl]; rfl
+  | (l, t) :: ps, h => by
+    have ht : t.otrim = false ∧ t.ctrim = false := h (l, t) (by simp)
+    have ho : t.opensTrim = false := by simp [Tag.opensTrim, ht.1]
+    have hc : t.closesTrim = false := by simp [Tag.closesTrim, ht.2]
+    have hp : t.plain = t := by
+      rcases t with ⟨k, o, bd, c⟩; simp only at ht; simp [Tag.plain, ht.1, ht.2]
+    simp only [expected]
+    rw [applyWs_step, ho, hc]
+    simp only [normalise_append, plain_stream last ps (fun lt hm => h lt (by simp [hm])), normalise_content]
+    have h1 : normalise (if l = [] then [] else [⟨TEXT, rtIf false (ltIf false l)⟩]) = textTok l := by
+      by_cases hl : l = []
+      · subst hl; rfl
+      · rw [if_neg hl, textTok_ne hl]; rfl
+    have h2 : normalise [tk t.opener.startKind] = [tk t.opener.startKind] := by
+      have := normKind_startKind t
+      rw [hp] at this
+      simp [normalise, tk, this]
+    have h3 : normalise [tk (endKind t.kind t.ctrim)] = [tk (endKind t.kind t.ctrim)] := by
+      have := normKind_endKind t.kind t.ctrim
+      rw [ht.2] at this ⊢
+      simp [normalise, tk, this]
+    rw [h1, h2, h3]
+    simp [Tag.tokens]
+
+/-- `l₁ {% verbatim %} body {% endverbatim %} l₂` with literal chunks parses to text, verbatim, text -/
+theorem parseTemplate_verbatim (l1 body l2 : Bytes) (h1 : Lit l1) (hb : Lit body) (h2 : NoOpener l2) :
+    parseTemplate (l1 ++ b "{% verbatim %}" ++ (body ++ b "{% endverbatim %}" ++ l2)) =
+      .ok ((if l1 = [] then [] else [.text l1]) ++ .verbatim body :: (if l2 = [] then [] else [.text l2])) := by
+  have hsp : l1 ++ b "{% verbatim %}" ++ (body ++ b "{% endverbatim %}" ++ l2) =
+      spell [(l1, verbOpen), (body, verbClose)] l2 := by
+    simp only [spell, verbOpen_text, verbClose_text]
+  have hsc := scanOpt_chunks [(l1, verbOpen), (body, verbClose)] l2 (by
+    intro lt hm
+    simp only [List.mem_cons, List.not_mem_nil, or_false] at hm
+    rcases hm with rfl | rfl
+    · exact ⟨h1, verb_wf.1⟩
+    · exact ⟨hb, verb_wf.2⟩) h2
+  unfold parseTemplate tokenize
+  rw [hsp, scan_eq_scanOpt, hsc]
+  simp only
+  rw [applyWs, plain_stream l2 _ (by
+    intro lt hm
+    simp only [List.mem_cons, List.not_mem_nil, or_false] at hm
+    rcases hm with rfl | rfl <;> exact ⟨rfl, rfl⟩)]
+  simp only [expected, verbOpen_tokens, verbClose_tokens]
+  generalize hF : 4 * (textTok l1 ++ [tk BLOCK_START, tk NAME (b "verbatim"), tk BLOCK_END] ++
+      (textTok body ++ [tk BLOCK_START, tk NAME (b "endverbatim"), tk BLOCK_END] ++ (textTok l2 ++ [tk EOF]))).length + 16 = F
+  obtain ⟨g, rfl⟩ : ∃ g, F = g + 4 := ⟨F - 4, by omega⟩
+  have htail : ∀ k, parseOuter (k + 2) (textTok l2 ++ [tk EOF]) = .ok ((if l2 = [] then [] else [.text l2]), [tk EOF]) := by
+    intro k
+    by_cases hl : l2 = []
+    · subst hl; exact parseOuter_eof _ _ _
+    · rw [textTok_ne hl, List.singleton_append, show tk TEXT l2 = (⟨TEXT, l2⟩ : Token) from rfl, parseOuter_text,
+        show tk EOF = (⟨EOF, []⟩ : Token) from rfl, parseOuter_eof]
+      simp [hl]
+  have hmid : ∀ k, parseOuter (k + 3) ([tk BLOCK_START, tk NAME (b "verbatim"), tk BLOCK_END] ++
+      (textTok body ++ [tk BLOCK_START, tk NAME (b "endverbatim"), tk BLOCK_END] ++ (textTok l2 ++ [tk EOF]))) =
+      .ok (.verbatim body :: (if l2 = [] then [] else [.text l2]), [tk EOF]) := by
+    intro k
+    have := parseOuter_verbatim (k + 1) body (textTok l2 ++ [tk EOF])
+    simp only [List.cons_append, List.nil_append, List.append_assoc] at this ⊢
+    rw [this, htail k]
+    rfl
+  by_cases hl1 : l1 = []
+  · subst hl1
+    rw [textTok_nil, List.nil_append, hmid (g + 1)]
+    simp [blockNamesL, blockNames]
+    split <;> simp [blockNamesL, blockNames, hasDup]
+  · rw [textTok_ne hl1, List.singleton_append, List.cons_append, show tk TEXT l1 = (⟨TEXT, l1⟩ : Token) from rfl,
+      parseOuter_text, hmid g]
+    simp [hl1, blockNamesL, blockNames]
+    split <;> simp [blockNamesL, blockNames, hasDup]
+
+
+
+/-! ## fuel monotonicity of the template parser; padding in front of a template -/
+
+/-! ## fuel order -/
+
+def FLe {α} (x y : R α) : Prop := x = .error .fuel ∨ x = y
+
+theorem FLe.refl {α} (x : R α) : FLe x x := .inr rfl
+theorem FLe.fuel {α} (y : R α) : FLe (.error .fuel) y := .inl rfl
+
+theorem FLe.trans {α} {x y z : R α} (h1 : FLe x y) (h2 : FLe y z) : FLe x z := by
+  rcases h1 with h1 | h1
+  · exact .inl h1
+  · subst h1; exact h2
+
+theorem FLe.bind {α β} {x x' : R α} {k k' : α → R β} (hx : FLe x x') (hk : ∀ a, FLe (k a) (k' a)) :
+    FLe (x >>= k) (x' >>= k') := by
+  rcases hx with hx | hx
+  · subst hx; exact .inl rfl
+  · subst hx
+    cases x with
+    | error e => exact .inr rfl
+    | ok a => exact hk a
+
+theorem FLe.ite {α} {c : Prop} [Decidable c] {a a' b b' : R α} (h1 : c → FLe a a') (h2 : ¬c → FLe b b') :
+    FLe (if c then a else b) (if c then a' else b') := by
+  by_cases h : c
+  · simp only [h, if_true]; exact h1 h
+  · simp only [h, if_false]; exact h2 h
+
+theorem FLe.eq_of_ne {α} {x y : R α} (h : FLe x y) (hne : x ≠ .error .fuel) : y = x := by
+  rcases h with h | h
+  · exact absurd h hne
+  · exact h.symm
+
+structure TMonoAt (f : Nat) : Prop where
+  outer : ∀ ts, FLe (parseOuter f ts) (parseOuter (f+1) ts)
+  tag : ∀ n ts, FLe (parseTag f n ts) (parseTag (f+1) n ts)
+  ifTail : ∀ h ts, FLe (parseIfTail f h ts) (parseIfTail (f+1) h ts)
+  incl : ∀ o ts, FLe (parseIncludeOpts f o ts) (parseIncludeOpts (f+1) o ts)
+  braces : ∀ ts, FLe (parseWithBraces f ts) (parseWithBraces (f+1) ts)
+  plain : ∀ ts, FLe (parseWithPlain f ts) (parseWithPlain (f+1) ts)
+  params : ∀ ts, FLe (parseMacroParams f ts) (parseMacroParams (f+1) ts)
+  names : ∀ ts, FLe (parseFromNames f ts) (parseFromNames (f+1) ts)
+
+theorem tmonoAt_zero : TMonoAt 0 := by
+  constructor <;> intros <;> exact .inl (by simp [parseOuter, parseTag, parseIfTail, parseIncludeOpts,
+    parseWithBraces, parseWithPlain, parseMacroParams, parseFromNames])
+
+macro "tfle" ih:ident : tactic => `(tactic| repeat' first
+  | exact FLe.refl _
+  | exact TMonoAt.outer $ih _ | exact TMonoAt.tag $ih _ _ | exact TMonoAt.ifTail $ih _ _
+  | exact TMonoAt.incl $ih _ _ | exact TMonoAt.braces $ih _ | exact TMonoAt.plain $ih _
+  | exact TMonoAt.params $ih _ | exact TMonoAt.names $ih _
+  | refine FLe.bind ?_ (fun ⟨_, _⟩ => ?_)
+  | refine FLe.bind ?_ (fun _ => ?_)
+  | refine FLe.ite (fun _ => ?_) (fun _ => ?_)
+  | split
+  | dsimp only)
+
+theorem tmonoAt_succ (f : Nat) (ih : TMonoAt f) : TMonoAt (f+1) where
+  outer ts := by
+    cases ts with
+    | nil => exact .inr (by simp [parseOuter])
+    | cons t r => unfold parseOuter; dsimp only; tfle ih
+  tag n ts := by
+    unfold parseTag; dsimp only
+    iterate 9 (refine FLe.ite (fun _ => ?_) (fun _ => ?_); · tfle ih)
+    refine FLe.ite (fun _ => ?_) (fun _ => ?_)
+    · -- `from`: the only handler that inspects a sub-result with an explicit `match`
+      split
+      · split
+        · rename_i p i r1 hcond
+          rcases TMonoAt.names ih r1 with h | h
+          · rw [h]; exact .inl rfl
+          · rw [h]; exact .inr rfl
+        · exact FLe.refl _
+      · exact FLe.refl _
+    · tfle ih
+  ifTail h ts := by unfold parseIfTail; tfle ih
+  incl o ts := by unfold parseIncludeOpts; tfle ih
+  braces ts := by unfold parseWithBraces; tfle ih
+  plain ts := by unfold parseWithPlain; tfle ih
+  params ts := by unfold parseMacroParams; tfle ih
+  names ts := by unfold parseFromNames; tfle ih
+
+
+
+theorem tmonoAt : ∀ f, TMonoAt f
+  | 0 => tmonoAt_zero
+  | f+1 => tmonoAt_succ f (tmonoAt f)
+
+theorem FLe.chain {α} (g : Nat → R α) (h : ∀ f, FLe (g f) (g (f+1))) : ∀ {f f'}, f ≤ f' → FLe (g f) (g f') := by
+  intro f f' hle
+  induction hle with
+  | refl => exact FLe.refl _
+  | step _ ih => exact ih.trans (h _)
+
+/-- more fuel never changes a non-fuel result of `parseOuter` (a node list or a genuine parse error) -/
+theorem parseOuter_mono {f f' : Nat} {ts : List Token} (hne : parseOuter f ts ≠ .error .fuel) (hle : f ≤ f') :
+    parseOuter f' ts = parseOuter f ts :=
+  (FLe.chain (parseOuter · ts) (fun f => (tmonoAt f).outer ts) hle).eq_of_ne hne
+
+/-! ## padding in front of a template -/
+
+theorem fo_comment_trim : ∀ (s : Bytes) (i : Nat) (o : Opener), findOpenerOpt s = some (i, o) →
+    o.kind = .comment → o.trim = false := by
+  intro s
+  induction s using findOpenerOpt.induct with
+  | case1 r => intro i o h hk; simp [findOpenerOpt] at h; obtain ⟨_, rfl⟩ := h; cases hk
+  | case2 r => intro i o h hk; simp [findOpenerOpt] at h; obtain ⟨_, rfl⟩ := h; cases hk
+  | case3 r => intro i o h hk; simp [findOpenerOpt] at h; obtain ⟨_, rfl⟩ := h; rfl
+  | case4 c r h1 h2 h3 ih =>
+    intro i o h hk
+    rw [findOpenerOpt] at h
+    · cases hf : findOpenerOpt r with
+      | none => simp [hf] at h
+      | some io =>
+        obtain ⟨j, o'⟩ := io
+        simp [hf] at h
+        obtain ⟨_, rfl⟩ := h
+        exact ih j o' hf hk
+    all_goals (intros; simp_all)
+  | case5 => intro i o h; simp [findOpenerOpt] at h
+
+
+
+/-- does the template begin with a dashed opener (`{{-`, `{%-`)? -/
+def dashedStart (s : Bytes) : Bool :=
+  match findOpenerOpt s with
+  | some (_, o) => o.trim
+  | none => false
+
+/-- the head of the token stream of a template that starts with a tag -/
+theorem scanOpt_head_start {s : Bytes} (h : TagOrEnd s) {ts : List Token} (hs : scanOpt s = .ok ts) :
+    ts ≠ [] ∧ nextTrim ts = dashedStart s ∧ ∀ t r, ts = t :: r → t.kind ≠ TEXT := by
+  rcases h with rfl | h
+  · rw [scanOpt_nil] at hs; cases hs
+    refine ⟨by simp, rfl, ?_⟩
+    intro t r e; cases e; decide
+  · cases hf : findOpenerOpt s with
+    | none => simp [hf] at h
+    | some io =>
+      obtain ⟨i, o⟩ := io
+      simp only [hf, Option.map_some, Option.some.injEq] at h
+      subst h
+      have hs0 : s ≠ [] := by intro h0; subst h0; simp [findOpenerOpt] at hf
+      have hb : ¬ (0 > 0 ∧ (s.drop (0 - 1)).head? = some 92) := by intro ⟨h, _⟩; omega
+      rw [scanOpt_eq_scanF] at hs
+      cases hg : tagEndOpt o.kind (List.drop (0 + o.len) s) with
+      | none => rw [scanF_tag_none _ _ hs0 hf hb hg] at hs; cases hs
+      | some te =>
+        rw [scanF_tag _ _ hs0 hf (by omega) hb hg] at hs
+        cases hr : scanF findOpenerOpt tagEndOpt (List.drop te.consumed (List.drop (0 + o.len) s)) with
+        | error e => rw [hr] at hs; cases hs
+        | ok ts' =>
+          rw [hr] at hs
+          simp only [mapOk_ok, List.take_zero, textTok_nil, List.nil_append, Except.ok.injEq] at hs
+          subst hs
+          refine ⟨by simp, ?_, ?_⟩
+          · simp only [nextTrim, dashedStart, hf, tk]
+            have hc := fo_comment_trim s 0 o hf
+            rcases o with ⟨k, t⟩
+            cases k <;> cases t <;> simp_all [Opener.startKind, isStartTrim] <;> decide
+          · intro t r e
+            injection e with e1 e2
+            rw [← e1]; exact o.startKind_ne_text
+
+theorem blockNamesL_text (v : Bytes) (ns : List Node) : blockNamesL (.text v :: ns) = blockNamesL ns := by
+  simp [blockNamesL, blockNames]
+
+/-- `Except.map` on parse results -/
+def mapNodes (F : List Node → List Node) : R (List Node) → R (List Node)
+  | .ok ns => .ok (F ns)
+  | .error e => .error e
+
+/-- Literal padding `p` in front of a template that begins with a tag (or is empty): the parse is the parse of
+    the template with one more text node in front — holding `p`, minus its trailing whitespace if the first tag
+    has a dashed opener. -/
+theorem parseTemplate_pad {p : Bytes} (hp : Lit p) (hne : p ≠ []) {s : Bytes} (hs : TagOrEnd s)
+    (hfuel : parseTemplate s ≠ .error .fuel) :
+    parseTemplate (p ++ s) = mapNodes (fun ns => .text (rtIf (dashedStart s) p) :: ns) (parseTemplate s) := by
+  have hsc : scanOpt (p ++ s) = mapOk (fun ts => tk TEXT p :: ts) (scanOpt s) := by
+    rw [scanOpt_pad_front hp hs, textTok_ne hne]; rfl
+  unfold parseTemplate tokenize at hfuel ⊢
+  rw [scan_eq_scanOpt] at hfuel ⊢
+  rw [scan_eq_scanOpt, hsc]
+  cases hr : scanOpt s with
+  | error e => rfl
+  | ok ts =>
+    rw [hr] at hfuel
+    obtain ⟨_, hnt, _⟩ := scanOpt_head_start hs hr
+    simp only [mapOk_ok] at hfuel ⊢
+    have hX : normalise (applyWs (tk TEXT p :: ts)) =
+        ⟨TEXT, rtIf (dashedStart s) p⟩ :: normalise (applyWs ts) := by
+      rw [applyWs, applyWsAux_text _ _ _ rfl, hnt]; rfl
+    rw [hX]
+    generalize normalise (applyWs ts) = X at hfuel ⊢
+    have hnf : parseOuter (4 * X.length + 16) X ≠ .error .fuel := by
+      intro h; rw [h] at hfuel; exact hfuel rfl
+    have hfu : 4 * (⟨TEXT, rtIf (dashedStart s) p⟩ :: X).length + 16 = (4 * X.length + 19) + 1 := by
+      simp only [List.length_cons]; omega
+    rw [hfu, parseOuter_text, parseOuter_mono hnf (by omega)]
+    cases parseOuter (4 * X.length + 16) X with
+    | error e => rfl
+    | ok x =>
+      obtain ⟨ns, r⟩ := x
+      simp only [ok_bind, pure_eq_ok, blockNamesL_text]
+      split <;> rfl
+
+
+
+/-! ## expression evaluation does not look at the template store -/
+
+def Env.withTpls (E : Env) (T : List (Bytes × List Node)) : Env := { E with tpls := T }
+
+theorem applyFilter_env (E : Env) (T) (n : Bytes) (v : Val) (a : List Val) (st : St) :
+    applyFilter (Env.withTpls E T) n v a st = applyFilter E n v a st := rfl
+theorem callFunction_env (E : Env) (T) (n : Bytes) (a : List Val) (st : St) :
+    callFunction (Env.withTpls E T) n a st = callFunction E n a st := rfl
+theorem allowedCheck_env (E : Env) (T) (st : St) (al : List Bytes) (n : Bytes) (w : String) :
+    allowedCheck (Env.withTpls E T) st al n w = allowedCheck E st al n w := rfl
+theorem invokeSpy_env (E : Env) (T) (k : CbKind) (n : Bytes) (st : St) :
+    invokeSpy (Env.withTpls E T) k n st = invokeSpy E k n st := rfl
+
+theorem applyChain_env (E : Env) (T) : ∀ (ch : List (Bytes × List Val)) (v : Val) (st : St),
+    applyChain (Env.withTpls E T) ch v st = applyChain E ch v st
+  | [], v, st => rfl
+  | (n, a) :: r, v, st => by
+    simp only [applyChain, applyFilter_env]
+    congr 1
+    funext x
+    exact applyChain_env E T r x.1 x.2
+
+mutual
+theorem evalX_env (E : Env) (T) : ∀ (e : Expr) (ap : Bool) (st : St),
+    evalX (Env.withTpls E T) ap e st = evalX E ap e st
+  | .null, ap, st => rfl
+  | .bool _, ap, st => rfl
+  | .int _, ap, st => rfl
+  | .str _, ap, st => rfl
+  | .unsup _, ap, st => rfl
+  | .var n, ap, st => rfl
+  | .unary op e, ap, st => by simp only [evalX, evalX_env E T e]
+  | .binary op l r, ap, st => by simp only [evalX, evalX_env E T l, evalX_env E T r]
+  | .badBinary l r, ap, st => by simp only [evalX, evalX_env E T l, evalX_env E T r]
+  | .cond c t f, ap, st => by simp only [evalX, evalX_env E T c, evalX_env E T t, evalX_env E T f]
+  | .attr e name, ap, st => by simp only [evalX, evalX_env E T e]
+  | .item e i, ap, st => by simp only [evalX, evalX_env E T e, evalX_env E T i]
+  | .filter e name args, ap, st => by
+    simp only [evalX, evalX_env E T e, evalArgs_env E T args, applyChain_env, allowedCheck_env]
+    rfl
+  | .call name args, ap, st => by
+    simp only [evalX, evalArgs_env E T args, callFunction_env, allowedCheck_env]
+    rfl
+  | .mcall obj name args, ap, st => by
+    simp only [evalX, evalX_env E T obj, evalArgs_env E T args, callFunction_env, allowedCheck_env]
+    rfl
+  | .test (.attr obj a) name args, ap, st => by
+    simp only [evalX, evalX_env E T obj, evalArgs_env E T args, invokeSpy_env]
+    rfl
+  | .test (.var n) name args, ap, st => by
+    simp only [evalX, evalArgs_env E T args, invokeSpy_env]
+    rfl
+  | .test (.null) name args, ap, st => by
+    rw [evalX.eq_18 (Env.withTpls E T) ap st (.null) name args (by intro _ _ h; cases h) (by intro _ h; cases h),
+      evalX.eq_18 E ap st (.null) name args (by intro _ _ h; cases h) (by intro _ h; cases h), evalX_env E T (.null)]
+    simp only [evalArgs_env E T args, invokeSpy_env]
+    rfl
+  | .test (.bool v) name args, ap, st => by
+    rw [evalX.eq_18 (Env.withTpls E T) ap st (.bool v) name args (by intro _ _ h; cases h) (by intro _ h; cases h),
+      evalX.eq_18 E ap st (.bool v) name args (by intro _ _ h; cases h) (by intro _ h; cases h), evalX_env E T (.bool v)]
+    simp only [evalArgs_env E T args, invokeSpy_env]
+    rfl
+  | .test (.int i) name args, ap, st => by
+    rw [evalX.eq_18 (Env.withTpls E T) ap st (.int i) name args (by intro _ _ h; cases h) (by intro _ h; cases h),
+      evalX.eq_18 E ap st (.int i) name args (by intro _ _ h; cases h) (by intro _ h; cases h), evalX_env E T (.int i)]
+    simp only [evalArgs_env E T args, invokeSpy_env]
+    rfl
+  | .test (.str s) name args, ap, st => by
+    rw [evalX.eq_18 (Env.withTpls E T) ap st (.str s) name args (by intro _ _ h; cases h) (by intro _ h; cases h),
+      evalX.eq_18 E ap st (.str s) name args (by intro _ _ h; cases h) (by intro _ h; cases h), evalX_env E T (.str s)]
+    simp only [evalArgs_env E T args, invokeSpy_env]
+    rfl
+  | .test (.unsup w) name args, ap, st => by
+    rw [evalX.eq_18 (Env.withTpls E T) ap st (.unsup w) name args (by intro _ _ h; cases h) (by intro _ h; cases h),
+      evalX.eq_18 E ap st (.unsup w) name args (by intro _ _ h; cases h) (by intro _ h; cases h), evalX_env E T (.unsup w)]
+    simp only [evalArgs_env E T args, invokeSpy_env]
+    rfl
+  | .test (.unary op x) name args, ap, st => by
+    rw [evalX.eq_18 (Env.withTpls E T) ap st (.unary op x) name args (by intro _ _ h; cases h) (by intro _ h; cases h),
+      evalX.eq_18 E ap st (.unary op x) name args (by intro _ _ h; cases h) (by intro _ h; cases h), evalX_env E T (.unary op x)]
+    simp only [evalArgs_env E T args, invokeSpy_env]
+    rfl
+  | .test (.binary op l r) name args, ap, st => by
+    rw [evalX.eq_18 (Env.withTpls E T) ap st (.binary op l r) name args (by intro _ _ h; cases h) (by intro _ h; cases h),
+      evalX.eq_18 E ap st (.binary op l r) name args (by intro _ _ h; cases h) (by intro _ h; cases h), evalX_env E T (.binary op l r)]
+    simp only [evalArgs_env E T args, invokeSpy_env]
+    rfl
+  | .test (.badBinary l r) name args, ap, st => by
+    rw [evalX.eq_18 (Env.withTpls E T) ap st (.badBinary l r) name args (by intro _ _ h; cases h) (by intro _ h; cases h),
+      evalX.eq_18 E ap st (.badBinary l r) name args (by intro _ _ h; cases h) (by intro _ h; cases h), evalX_env E T (.badBinary l r)]
+    simp only [evalArgs_env E T args, invokeSpy_env]
+    rfl
+  | .test (.cond c t f) name args, ap, st => by
+    rw [evalX.eq_18 (Env.withTpls E T) ap st (.cond c t f) name args (by intro _ _ h; cases h) (by intro _ h; cases h),
+      evalX.eq_18 E ap st (.cond c t f) name args (by intro _ _ h; cases h) (by intro _ h; cases h), evalX_env E T (.cond c t f)]
+    simp only [evalArgs_env E T args, invokeSpy_env]
+    rfl
+  | .test (.item x i) name args, ap, st => by
+    rw [evalX.eq_18 (Env.withTpls E T) ap st (.item x i) name args (by intro _ _ h; cases h) (by intro _ h; cases h),
+      evalX.eq_18 E ap st (.item x i) name args (by intro _ _ h; cases h) (by intro _ h; cases h), evalX_env E T (.item x i)]
+    simp only [evalArgs_env E T args, invokeSpy_env]
+    rfl
+  | .test (.filter x nm as) name args, ap, st => by
+    rw [evalX.eq_18 (Env.withTpls E T) ap st (.filter x nm as) name args (by intro _ _ h; cases h) (by intro _ h; cases h),
+      evalX.eq_18 E ap st (.filter x nm as) name args (by intro _ _ h; cases h) (by intro _ h; cases h), evalX_env E T (.filter x nm as)]
+    simp only [evalArgs_env E T args, invokeSpy_env]
+    rfl
+  | .test (.call nm as) name args, ap, st => by
+    rw [evalX.eq_18 (Env.withTpls E T) ap st (.call nm as) name args (by intro _ _ h; cases h) (by intro _ h; cases h),
+      evalX.eq_18 E ap st (.call nm as) name args (by intro _ _ h; cases h) (by intro _ h; cases h), evalX_env E T (.call nm as)]
+    simp only [evalArgs_env E T args, invokeSpy_env]
+    rfl
+  | .test (.mcall o nm as) name args, ap, st => by
+    rw [evalX.eq_18 (Env.withTpls E T) ap st (.mcall o nm as) name args (by intro _ _ h; cases h) (by intro _ h; cases h),
+      evalX.eq_18 E ap st (.mcall o nm as) name args (by intro _ _ h; cases h) (by intro _ h; cases h), evalX_env E T (.mcall o nm as)]
+    simp only [evalArgs_env E T args, invokeSpy_env]
+    rfl
+  | .test (.test x nm as) name args, ap, st => by
+    rw [evalX.eq_18 (Env.withTpls E T) ap st (.test x nm as) name args (by intro _ _ h; cases h) (by intro _ h; cases h),
+      evalX.eq_18 E ap st (.test x nm as) name args (by intro _ _ h; cases h) (by intro _ h; cases h), evalX_env E T (.test x nm as)]
+    simp only [evalArgs_env E T args, invokeSpy_env]
+    rfl
+  | .test (.array xs) name args, ap, st => by
+    rw [evalX.eq_18 (Env.withTpls E T) ap st (.array xs) name args (by intro _ _ h; cases h) (by intro _ h; cases h),
+      evalX.eq_18 E ap st (.array xs) name args (by intro _ _ h; cases h) (by intro _ h; cases h), evalX_env E T (.array xs)]
+    simp only [evalArgs_env E T args, invokeSpy_env]
+    rfl
+  | .test (.hash xs) name args, ap, st => by
+    rw [evalX.eq_18 (Env.withTpls E T) ap st (.hash xs) name args (by intro _ _ h; cases h) (by intro _ h; cases h),
+      evalX.eq_18 E ap st (.hash xs) name args (by intro _ _ h; cases h) (by intro _ h; cases h), evalX_env E T (.hash xs)]
+    simp only [evalArgs_env E T args, invokeSpy_env]
+    rfl
+  | .array items, ap, st => by simp only [evalX, evalArgs_env E T items]
+  | .hash items, ap, st => by simp only [evalX, evalPairs_env E T items]
+
+theorem evalArgs_env (E : Env) (T) : ∀ (es : List Expr) (st : St),
+    evalArgs (Env.withTpls E T) es st = evalArgs E es st
+  | [], st => rfl
+  | e :: es, st => by simp only [evalArgs, evalX_env E T e, evalArgs_env E T es]
+
+theorem evalPairs_env (E : Env) (T) : ∀ (es : List Expr) (st : St),
+    evalPairs (Env.withTpls E T) es st = evalPairs E es st
+  | [], st => rfl
+  | [_], st => rfl
+  | k :: v :: es, st => by simp only [evalPairs, evalX_env E T k, evalX_env E T v, evalPairs_env E T es]
+end
+
+
+/-! ## templates that never transfer to a template root; simulation between two template stores -/
+
+mutual
+/-- no `extends` / `include` / `import` / `from` anywhere in the node -/
+def NX : Node → Bool
+  | .text _ => true
+  | .print _ => true
+  | .setN _ _ => true
+  | .doN _ => true
+  | .verbatim _ => true
+  | .ifN _ t e => NXL t && NXL e
+  | .forN _ _ _ bd e => NXL bd && NXL e
+  | .block _ bd => NXL bd
+  | .macro _ _ _ _ bd => NXL bd
+  | .apply _ bd => NXL bd
+  | .spaceless bd => NXL bd
+  | .extends _ => false
+  | .include _ _ _ _ _ _ => false
+  | .importN _ _ => false
+  | .fromN _ _ => false
+def NXL : List Node → Bool
+  | [] => true
+  | n :: r => NX n && NXL r
+end
+
+/-- every block body the context knows is free of root transfers -/
+def InvC (c : Ctx) : Prop :=
+  (∀ kv ∈ c.blockDefs, ∀ d ∈ kv.2, NXL d.body = true) ∧ (∀ d ∈ c.chain, NXL d.body = true)
+
+def TrOK : Transfer → Prop
+  | .root _ => False
+  | .body _ ns => NXL ns = true
+  | .macroCall _ _ _ => True
+
+theorem invC_of_core {c c' : Ctx} (h : Inh.core c' = Inh.core c) (hi : InvC c) : InvC c' := by
+  unfold InvC
+  rw [Inh.core_blockDefs h, Inh.core_chain h]; exact hi
+
+theorem invC_of_ctx_eq {c c' : Ctx} (h : c' = c) (hi : InvC c) : InvC c' := by rw [h]; exact hi
+
+theorem bind_congr_ok {ε α β} {x : Except ε α} {k k' : α → Except ε β} (h : ∀ a, x = .ok a → k a = k' a) :
+    (x >>= k) = (x >>= k') := by
+  cases x with
+  | error e => rfl
+  | ok a => exact h a rfl
+
+/-- two transfer functions that agree on body and macro transfers (in contexts satisfying the invariant) -/
+structure GoSim (go' go : Go) : Prop where
+  eq : ∀ tr st, TrOK tr → InvC st.ctx → go' tr st = go tr st
+  fr : Inh.GoFr go
+
+theorem printVal_sim {go' go : Go} (hs : GoSim go' go) (v : Val) (st : St) (hi : InvC st.ctx) :
+    printVal go' v st = printVal go v st := by
+  unfold printVal
+  split
+  · exact hs.eq _ _ trivial hi
+  · split
+    · rfl
+    · dsimp only
+      split
+      · rfl
+      · rename_i d r hd
+        have hmem : d ∈ st.ctx.chain := by
+          have : d ∈ List.drop (st.ctx.level + 1) st.ctx.chain := by rw [hd]; simp
+          exact List.mem_of_mem_drop this
+        rw [hs.eq (.body d.tpl d.body) _ (hi.2 d hmem) (by exact hi)]
+  · rfl
+
+theorem loopOver_congr {f' f : St → R Out} (hf : ∀ s, InvC s.ctx → f' s = f s)
+    (hfr : ∀ s o s', f s = .ok (o, s') → InvC s.ctx → InvC s'.ctx) (kv : Option Bytes) (vv : Bytes) (n : Nat) :
+    ∀ (items : List (Val × Val)) (i : Nat) (st : St), InvC st.ctx →
+      loopOver f' kv vv n i items st = loopOver f kv vv n i items st
+  | [], i, st, _ => rfl
+  | (k, v) :: r, i, st, hi => by
+    cases kv with
+    | none =>
+      simp only [loopOver]
+      have hc : InvC ({ st with ctx := (st.ctx.setVar vv v).setVar (b "loop") (loopMeta i n) } : St).ctx := hi
+      rw [hf _ hc]
+      apply bind_congr_ok
+      intro a ha
+      have h1 := hfr _ a.1 a.2 ha hc
+      rw [loopOver_congr hf hfr none vv n r (i + 1) a.2 h1]
+    | some kk =>
+      simp only [loopOver]
+      have hc : InvC ({ st with ctx := ((st.ctx.setVar vv v).setVar kk k).setVar (b "loop") (loopMeta i n) } : St).ctx := hi
+      rw [hf _ hc]
+      apply bind_congr_ok
+      intro a ha
+      have h1 := hfr _ a.1 a.2 ha hc
+      rw [loopOver_congr hf hfr (some kk) vv n r (i + 1) a.2 h1]
+
+
+theorem block_sim (E' E : Env) {go' go : Go} (hs : GoSim go' go) (tpl name : Bytes) (body : List Node) (st : St)
+    (hb : NXL body = true) (hi : InvC st.ctx) :
+    renderNode E' go' tpl (.block name body) st = renderNode E go tpl (.block name body) st := by
+  rw [Inh.block_eq, Inh.block_eq]
+  have hdefs : ∀ d ∈ (getKV name st.ctx.blockDefs).getD [], NXL d.body = true := by
+    intro d hd
+    unfold getKV at hd
+    cases hf : st.ctx.blockDefs.find? (fun x => x.1 == name) with
+    | none => simp [hf] at hd
+    | some kv =>
+      simp only [hf, Option.map_some, Option.getD_some] at hd
+      exact hi.1 kv (List.mem_of_find?_eq_some hf) d hd
+  generalize (getKV name st.ctx.blockDefs).getD [] = defs at hdefs
+  have hchain : ∀ d ∈ Inh.specChain tpl name body defs, NXL d.body = true := by
+    intro d hd
+    unfold Inh.specChain at hd
+    split at hd
+    · exact hdefs d hd
+    · rcases List.mem_append.mp hd with h | h
+      · exact hdefs d h
+      · simp only [List.mem_singleton] at h; rw [h]; exact hb
+  have hhead : NXL ((Inh.specChain tpl name body defs).headD ⟨tpl, name, body⟩).body = true := by
+    cases hc : Inh.specChain tpl name body defs with
+    | nil => exact hb
+    | cons d r => exact hchain d (by rw [hc]; simp)
+  have hinv : InvC (Inh.blockSt st (Inh.specChain tpl name body defs)).ctx := ⟨hi.1, hchain⟩
+  rw [hs.eq (.body _ _) _ hhead hinv]
+
+mutual
+theorem renderNode_sim (E : Env) (T : List (Bytes × List Node)) {go' go : Go} (hs : GoSim go' go) (tpl : Bytes) :
+    ∀ (n : Node) (st : St), NX n = true → InvC st.ctx →
+      renderNode (Env.withTpls E T) go' tpl n st = renderNode E go tpl n st
+  | .text s, st, _, _ => rfl
+  | .verbatim s, st, _, _ => rfl
+  | .print e, st, _, hi => by
+    simp only [renderNode, evalX_env]
+    apply bind_congr_ok
+    intro a ha
+    exact printVal_sim hs _ _ (invC_of_ctx_eq (Inh.evalX_ctx E e _ _ _ _ ha) hi)
+  | .ifN c t e, st, hn, hi => by
+    simp only [NX, Bool.and_eq_true] at hn
+    simp only [renderNode, evalX_env]
+    apply bind_congr_ok
+    intro a ha
+    have h1 := invC_of_ctx_eq (Inh.evalX_ctx E c _ _ _ _ ha) hi
+    split
+    · exact renderNodes_sim E T hs tpl t _ hn.1 h1
+    · exact renderNodes_sim E T hs tpl e _ hn.2 h1
+  | .forN key val seq body els, st, hn, hi => by
+    simp only [NX, Bool.and_eq_true] at hn
+    simp only [renderNode, evalX_env]
+    apply bind_congr_ok
+    intro a ha
+    have h1 := invC_of_ctx_eq (Inh.evalX_ctx E seq _ _ _ _ ha) hi
+    apply bind_congr_ok
+    intro items _
+    split
+    · exact renderNodes_sim E T hs tpl els _ hn.2 h1
+    · exact renderNodes_sim E T hs tpl els _ hn.2 h1
+    · rw [loopOver_congr (f' := fun s => renderNodes (Env.withTpls E T) go' tpl body s)
+        (f := fun s => renderNodes E go tpl body s)
+        (fun s hs' => renderNodes_sim E T hs tpl body s hn.1 hs')
+        (fun s o s' h hs' => invC_of_core (Inh.renderNodes_fr E hs.fr tpl body s o s' h) hs') _ _ _ _ _ _ h1]
+  | .setN name e, st, _, _ => by simp only [renderNode, evalX_env]
+  | .doN e, st, _, _ => by simp only [renderNode, evalX_env]
+  | .block name body, st, hn, hi => block_sim _ E hs tpl name body st (by simpa [NX] using hn) hi
+  | .extends e, st, hn, _ => by simp [NX] at hn
+  | .include _ _ _ _ _ _, st, hn, _ => by simp [NX] at hn
+  | .macro _ _ _ _ _, st, _, _ => rfl
+  | .importN _ _, st, hn, _ => by simp [NX] at hn
+  | .fromN _ _, st, hn, _ => by simp [NX] at hn
+  | .apply filter body, st, hn, hi => by
+    simp only [renderNode, applyFilter_env]
+    rw [renderNodes_sim E T hs tpl body st (by simpa [NX] using hn) hi]
+  | .spaceless _, st, _, _ => rfl
+
+theorem renderNodes_sim (E : Env) (T : List (Bytes × List Node)) {go' go : Go} (hs : GoSim go' go) (tpl : Bytes) :
+    ∀ (ns : List Node) (st : St), NXL ns = true → InvC st.ctx →
+      renderNodes (Env.withTpls E T) go' tpl ns st = renderNodes E go tpl ns st
+  | [], st, _, _ => rfl
+  | n :: r, st, hn, hi => by
+    simp only [NXL, Bool.and_eq_true] at hn
+    simp only [renderNodes]
+    rw [renderNode_sim E T hs tpl n st hn.1 hi]
+    apply bind_congr_ok
+    intro a ha
+    have h1 := invC_of_core (Inh.renderNode_fr E hs.fr tpl n st a.1 a.2 ha) hi
+    rw [renderNodes_sim E T hs tpl r a.2 hn.2 h1]
+end
+
+
+theorem bindParams_env (E : Env) (T) (dn : List Bytes) (de : List Expr) :
+    ∀ (ps : List Bytes) (args : List Val) (st : St) (acc : List (Bytes × Val)),
+      bindParams (Env.withTpls E T) dn de ps args st acc = bindParams E dn de ps args st acc
+  | [], _, st, acc => by simp only [bindParams]
+  | p :: ps, a :: as, st, acc => by simp only [bindParams, bindParams_env E T dn de ps as]
+  | p :: ps, [], st, acc => by
+    simp only [bindParams, evalExpr, evalX_env, bindParams_env E T dn de ps []]
+
+theorem findMacro_foldl_NXL (name : Bytes) : ∀ (nodes : List Node) (acc : Option (List Bytes × List Bytes × List Expr × List Node)),
+    NXL nodes = true → (∀ x, acc = some x → NXL x.2.2.2 = true) →
+    ∀ x, nodes.foldl (fun acc n => match n with
+      | .macro m ps dn de body => if m == name then some (ps, dn, de, body) else acc
+      | _ => acc) acc = some x → NXL x.2.2.2 = true
+  | [], acc, _, ha, x, h => ha x h
+  | n :: r, acc, hn, ha, x, h => by
+    simp only [NXL, Bool.and_eq_true] at hn
+    simp only [List.foldl_cons] at h
+    refine findMacro_foldl_NXL name r _ hn.2 ?_ x h
+    intro y hy
+    cases n <;> try (exact ha y hy)
+    rename_i m ps dn de body
+    simp only at hy
+    split at hy
+    · cases hy; simpa [NX] using hn.1
+    · exact ha y hy
+
+theorem findMacro_NXL {nodes : List Node} {name : Bytes} {x} (hn : NXL nodes = true)
+    (h : findMacro nodes name = some x) : NXL x.2.2.2 = true :=
+  findMacro_foldl_NXL name nodes none hn (by intro x hx; cases hx) x h
+
+theorem findMacro_text (v : Bytes) (nodes : List Node) (name : Bytes) :
+    findMacro (.text v :: nodes) name = findMacro nodes name := by
+  simp [findMacro]
+
+theorem topMacroNames_text (v : Bytes) (nodes : List Node) :
+    topMacroNames (.text v :: nodes) = topMacroNames nodes := by
+  simp [topMacroNames]
+
+theorem tpl_envOf' (nodes : List Node) (t : Bytes) :
+    (envOf nodes).tpl? t = if mainName == t then some nodes else none := by
+  simp [Env.tpl?, envOf]
+
+theorem envOf_text (v : Bytes) (nodes : List Node) :
+    envOf (.text v :: nodes) = Env.withTpls (envOf nodes) [(mainName, .text v :: nodes)] := rfl
+
+theorem callMacro_sim (v : Bytes) (nodes : List Node) (hn : NXL nodes = true) {go' go : Go} (hs : GoSim go' go)
+    (t m : Bytes) (args : List Val) (st : St) :
+    callMacro (envOf (.text v :: nodes)) go' t m args st = callMacro (envOf nodes) go t m args st := by
+  unfold callMacro
+  rw [tpl_envOf', tpl_envOf']
+  by_cases ht : (mainName == t) = true
+  · simp only [ht, if_true, findMacro_text, topMacroNames_text]
+    cases hf : findMacro nodes m with
+    | none => rfl
+    | some x =>
+      obtain ⟨ps, dn, de, body⟩ := x
+      have hb : NXL body = true := findMacro_NXL hn hf
+      simp only
+      split
+      · rfl
+      · rw [envOf_text, bindParams_env]
+        apply bind_congr_ok
+        intro a _
+        rw [hs.eq (.body t body) _ hb (by constructor <;> intro x hx <;> exact absurd hx List.not_mem_nil)]
+        rfl
+  · simp only [ht]
+    rfl
+
+
+/-- the two engines (template with / without a text node in front) agree on every body and macro transfer -/
+theorem run_sim (v : Bytes) (nodes : List Node) (hn : NXL nodes = true) :
+    ∀ f, GoSim (run (envOf (.text v :: nodes)) f) (run (envOf nodes) f)
+  | 0 => ⟨fun _ _ _ _ => rfl, Inh.run_fr _ 0⟩
+  | f+1 => by
+    refine ⟨?_, Inh.run_fr _ (f+1)⟩
+    intro tr st htr hi
+    cases tr with
+    | root t => exact absurd htr (by simp [TrOK])
+    | body t ns =>
+      simp only [run]
+      rw [envOf_text]
+      exact renderNodes_sim (envOf nodes) _ (run_sim v nodes hn f) t ns st htr hi
+    | macroCall t m args =>
+      simp only [run]
+      exact callMacro_sim v nodes hn (run_sim v nodes hn f) t m args st
+
+theorem lastExtends_NXL : ∀ (nodes : List Node), NXL nodes = true → lastExtends nodes = none
+  | [], _ => rfl
+  | n :: r, h => by
+    simp only [NXL, Bool.and_eq_true] at h
+    have ih := lastExtends_NXL r h.2
+    cases n <;> simp_all [lastExtends, NX]
+
+theorem registerBlocks_inv (tpl : Bytes) : ∀ (nodes : List Node) (defs : List (Bytes × List BlockDef)),
+    NXL nodes = true → (∀ kv ∈ defs, ∀ d ∈ kv.2, NXL d.body = true) →
+    ∀ kv ∈ registerBlocks tpl nodes defs, ∀ d ∈ kv.2, NXL d.body = true
+  | [], defs, _, hd => by simpa [registerBlocks] using hd
+  | n :: r, defs, hn, hd => by
+    simp only [NXL, Bool.and_eq_true] at hn
+    cases n <;> try (simp only [registerBlocks]; exact registerBlocks_inv tpl r defs hn.2 hd)
+    rename_i name body
+    simp only [registerBlocks]
+    refine registerBlocks_inv tpl r _ hn.2 ?_
+    intro kv hkv d hdm
+    simp only [setKV, List.mem_cons] at hkv
+    rcases hkv with rfl | hkv
+    · simp only [List.mem_append, List.mem_singleton] at hdm
+      rcases hdm with h | h
+      · unfold getKV at h
+        cases hf : defs.find? (fun x => x.1 == name) with
+        | none => simp [hf] at h
+        | some kv' =>
+          simp only [hf, Option.map_some, Option.getD_some] at h
+          exact hd kv' (List.mem_of_find?_eq_some hf) d h
+      · rw [h]; simpa [NX] using hn.1
+    · exact hd kv (List.mem_filter.mp hkv).1 d hdm
+
+theorem registerBlocks_text (tpl v : Bytes) (nodes : List Node) (defs) :
+    registerBlocks tpl (.text v :: nodes) defs = registerBlocks tpl nodes defs := by
+  simp [registerBlocks]
+
+/-- A text node in front of a template that never transfers to a template root: the output gains exactly that
+    text in front, nothing else changes (same error otherwise). -/
+theorem renderNodesTop_text (v : Bytes) (nodes : List Node) (hn : NXL nodes = true) (vars : List (Bytes × Val)) :
+    renderNodesTop (.text v :: nodes) vars =
+      (renderNodesTop nodes vars >>= fun o => pure (v ++ o)) := by
+  unfold renderNodesTop renderTop
+  simp only [tpl_envOf, defaultFuel, run, renderRoot, registerBlocks_text]
+  have hle : lastExtends (.text v :: nodes) = none := by
+    simp [lastExtends, lastExtends_NXL nodes hn]
+  simp only [hle, lastExtends_NXL nodes hn, renderNodes, renderNode]
+  have hinv : InvC ({ ctx := { vars := vars, blockDefs := registerBlocks mainName nodes [] } } : St).ctx :=
+    ⟨registerBlocks_inv mainName nodes [] hn (by intro kv hkv; cases hkv), by intro d hd; cases hd⟩
+  have := renderNodes_sim (envOf nodes) [(mainName, .text v :: nodes)] (run_sim v nodes hn 199) mainName nodes _ hn hinv
+  rw [← envOf_text] at this
+  simp only [pure_eq_ok, ok_bind]
+  rw [this]
+  cases renderNodes (envOf nodes) (run (envOf nodes) 199) mainName nodes _ <;> rfl
+
+
+
+/-! ## the token stream of a dashed template, for arbitrary tags -/
+
+theorem normalise_step (tn : Bool) (l : Bytes) (t : Tag) (E : List Token) :
+    normalise (applyWsAux tn (textTok l ++ t.tokens ++ E)) =
+      (if l = [] then [] else [⟨TEXT, rtIf t.opensTrim (ltIf tn l)⟩]) ++ t.plain.tokens ++
+        normalise (applyWsAux t.closesTrim E) := by
+  rw [applyWs_step]
+  simp only [normalise_append, normalise_content]
+  have h1 : normalise (if l = [] then [] else [⟨TEXT, rtIf t.opensTrim (ltIf tn l)⟩]) =
+      (if l = [] then [] else [⟨TEXT, rtIf t.opensTrim (ltIf tn l)⟩]) := by split <;> rfl
+  have h2 : normalise [tk t.opener.startKind] = [tk t.plain.opener.startKind] := by
+    simp [normalise, tk, normKind_startKind]
+  have h3 : normalise [tk (endKind t.kind t.ctrim)] = [tk (endKind t.kind false)] := by
+    simp [normalise, tk, normKind_endKind]
+  rw [h1, h2, h3]
+  simp [Tag.tokens, Tag.plain]
+
+/-- no non-empty chunk is trimmed to nothing -/
+def keptB : Bool → List (Bytes × Tag) → Bytes → Bool
+  | tn, [], last => last.isEmpty || !(ltIf tn last).isEmpty
+  | tn, (l, t) :: ps, last => (l.isEmpty || !(rtIf t.opensTrim (ltIf tn l)).isEmpty) && keptB t.closesTrim ps last
+
+def Kept (tn : Bool) (ps : List (Bytes × Tag)) (last : Bytes) : Prop := keptB tn ps last = true
+instance (tn : Bool) (ps : List (Bytes × Tag)) (last : Bytes) : Decidable (Kept tn ps last) := by
+  unfold Kept; infer_instance
+
+theorem isEmpty_or {l x : Bytes} (h : (l.isEmpty || !x.isEmpty) = true) : l = [] ∨ x ≠ [] := by
+  cases l <;> cases x <;> simp_all
+
+theorem kept_nil {tn : Bool} {last : Bytes} (h : Kept tn [] last) : last = [] ∨ ltIf tn last ≠ [] :=
+  isEmpty_or h
+
+theorem kept_cons {tn : Bool} {l : Bytes} {t : Tag} {ps : List (Bytes × Tag)} {last : Bytes}
+    (h : Kept tn ((l, t) :: ps) last) :
+    (l = [] ∨ rtIf t.opensTrim (ltIf tn l) ≠ []) ∧ Kept t.closesTrim ps last := by
+  unfold Kept keptB at h
+  simp only [Bool.and_eq_true] at h
+  exact ⟨isEmpty_or h.1, h.2⟩
+
+theorem opt_textTok {l x : Bytes} (h : l = [] ∨ x ≠ []) (hx : l = [] → x = []) :
+    (if l = [] then [] else [(⟨TEXT, x⟩ : Token)]) = textTok x := by
+  by_cases hl : l = []
+  · rw [if_pos hl, hx hl]; rfl
+  · rw [if_neg hl, textTok_ne (h.resolve_left hl)]; rfl
+
+/-- when trimming empties no chunk, the parser sees for the dashed template exactly the token stream of the
+    hand-trimmed dash-free template -/
+theorem stream_undash (last : Bytes) : ∀ (ps : List (Bytes × Tag)) (tn : Bool), Kept tn ps last →
+    normalise (applyWsAux tn (expected ps last)) = expected (undashPairs tn ps) (undashLast tn ps last)
+  | [], tn, hk => by
+    simp only [expected, undashPairs, undashLast, lastFlag]
+    by_cases hl : last = []
+    · subst hl; rw [ltIf_nil]; rfl
+    · rw [textTok_ne hl, List.singleton_append, applyWsAux_text _ _ _ rfl]
+      have hne : ltIf tn last ≠ [] := (kept_nil hk).resolve_left hl
+      rw [textTok_ne hne]
+      rfl
+  | (l, t) :: ps, tn, hk => by
+    simp only [expected, undashPairs]
+    rw [normalise_step, stream_undash last ps _ (kept_cons hk).2,
+      opt_textTok (kept_cons hk).1 (fun h => by rw [h, trims_nil])]
+    simp [undashLast, lastFlag]
+
+
+theorem undashPairs_plain : ∀ (tn : Bool) (ps : List (Bytes × Tag)), ∀ lt ∈ undashPairs tn ps,
+    lt.2.otrim = false ∧ lt.2.ctrim = false
+  | _, [], lt, h => by simp [undashPairs] at h
+  | tn, (l, t) :: ps, lt, h => by
+    simp only [undashPairs, List.mem_cons] at h
+    rcases h with rfl | h
+    · exact ⟨rfl, rfl⟩
+    · exact undashPairs_plain _ ps lt h
+
+/-- both templates of C13 tokenize to the same stream when trimming empties no chunk -/
+theorem tokenize_undash (ps : List (Bytes × Tag)) (last : Bytes)
+    (hwf : ∀ lt ∈ ps, WfTag lt.2 ∧ WfTag lt.2.plain)
+    (hlit : ∀ lt ∈ undashPairs false ps, Lit lt.1)
+    (hlast : NoOpener (undashLast false ps last)) (hk : Kept false ps last) :
+    tokenize (spell ps last) = .ok (expected (undashPairs false ps) (undashLast false ps last)) ∧
+    tokenize (spell (undashPairs false ps) (undashLast false ps last)) =
+      .ok (expected (undashPairs false ps) (undashLast false ps last)) := by
+  have h1 : scanOpt (spell ps last) = .ok (expected ps last) :=
+    scanOpt_chunks ps last
+      (fun lt hm => ⟨lit_of_undash false ps hlit lt hm, (hwf lt hm).1⟩)
+      (noOpener_of_ltIf hlast)
+  have h2 : scanOpt (spell (undashPairs false ps) (undashLast false ps last)) =
+      .ok (expected (undashPairs false ps) (undashLast false ps last)) :=
+    scanOpt_chunks _ _
+      (fun lt hm => ⟨hlit lt hm, wf_of_undash false ps (fun x hx => (hwf x hx).2) lt hm⟩) hlast
+  constructor
+  · simp only [tokenize, scan_eq_scanOpt, h1, applyWs]
+    rw [stream_undash last ps false hk]
+  · simp only [tokenize, scan_eq_scanOpt, h2, applyWs]
+    rw [plain_stream _ _ (undashPairs_plain false ps)]
 
 end Lift
 end Twig
